@@ -261,8 +261,14 @@ def compare_offline_batch(ctx, cases):
     work = []
     for c in cases:
         f, sig = c["f"], c["sig"]
-        text, out = eval_offline(f, sig)
-        rep = {"monitor": "offc", "spec": text, "formula": F.to_proto(f), "signals": {v: [[str(t), x] for t, x in sig[v]] for v in sig},
+        if c.get("units_seed") is not None:
+            # the same durations with explicit units on either / both bounds (the time stamps are seconds, default unit s)
+            import random
+            from .props import c08
+            text, out = eval_offline(f, sig, text=c08.render(random.Random(c["units_seed"]), f, "s", int(SCALE * 10 ** 9), []), unit="s")
+        else:
+            text, out = eval_offline(f, sig)
+        rep = {"units_seed": c.get("units_seed"), "monitor": "offc", "spec": text, "formula": F.to_proto(f), "signals": {v: [[str(t), x] for t, x in sig[v]] for v in sig},
                "impl": out}
         work.append((c, text, out, rep))
     doms = model_query([(c["f"], c["sig"], []) for c, _, _, _ in work])
